@@ -1,22 +1,23 @@
 import FiberModel.C08.Spec
 /-
-C08 — region of the known finding K1 (known/C08.json).
+C08 — the region of the former known finding K1 (known/C08.json: fixed by 023a967).
 
-K1: `App.ErrorHandler` compares the appList key with `ctx.Path()` byte by byte (letter case aside),
-so an app mounted under a parameterised prefix (`/:tenant`) is a candidate only for a request whose
-path spells the pattern itself (`/:tenant/x`). For a real request (`/acme/x`) the handler of the app
-the sentence designates is not called: the next literal candidate's, or the root's, runs instead.
+K1 was: `App.ErrorHandler` compared every appList key with `ctx.Path()` byte by byte (letter case
+aside), so an app mounted under a parameterised prefix (`/:tenant`) was a candidate only for a
+request whose path spells the pattern itself (`/:tenant/x`). For a real request (`/acme/x`) the
+handler of the app the sentence designates was not called.
 
-The region is as narrow as the defect allows: the app the sentence designates for this path is one
-whose prefix does NOT contain the path literally (so it is designated through a parameter segment).
-Everywhere else the theorems in Props hold unconditionally.
+The region is kept as a definition: the driver tags the cases inside it (they are the evidence that
+the repaired code is exercised there), and `Props.K1_repaired` evaluates the old and the new loop
+on the former witness. Nothing is excused by it any more.
 -/
 namespace C08.Known
 open B C04 C08
 
-def K1 (cfg : Cfg) (l : List Mounted) (path : Bytes) : Bool :=
-  match innermost cfg path (candidates cfg l path) with
-  | some m => !contains cfg m.pre path
+/-- the app the sentence designates for this path sits under a prefix that is a route pattern -/
+def K1 (cfg : Cfg) (cov : Cover) (l : List Mounted) (path : Bytes) : Bool :=
+  match innermost cfg cov path (candidates cfg cov l path) with
+  | some m => isPattern m.pre
   | none => false
 
 end C08.Known
